@@ -28,24 +28,35 @@ def setup(common=None):
     _U.update(np=np, unyt=unyt, Unit=Unit, ua=unyt.unyt_array, uq=unyt.unyt_quantity, split=_split_prefix)
     _U["pool"] = (common or {}).get("pool", [])
     _U["gen"] = {k: float(v) for k, v in (common or {}).get("gen", {}).items()}
-    _U["ucache"] = {}
     # the registry the quantities of this instance live in: the default one, or one the caller created and edited
     from unyt import dimensions as D
     from unyt.unit_registry import UnitRegistry, default_unit_registry
 
     edits = (common or {}).get("edits")
-    if edits:
-        reg = UnitRegistry()
-        for e in edits:
+
+    def build(cfg):
+        """the registry of a case: cfg names the unit system it is configured with ('' = none)"""
+        if not edits and not cfg:
+            return default_unit_registry, {}
+        reg = UnitRegistry(unit_system=cfg) if cfg else UnitRegistry()
+        for e in edits or []:
             if e["op"] == "add":
                 reg.add(e["sym"], float(e["value"]), getattr(D, e["dim"]), prefixable=bool(e["prefixable"]))
             else:
                 reg.modify(e["sym"], float(e["value"]))
-        _U["reg"] = reg
-        _U["regkw"] = {"registry": reg}
-    else:
-        _U["reg"] = default_unit_registry
-        _U["regkw"] = {}
+        return reg, {"registry": reg}
+
+    _U["build"] = build
+    _U["regs"] = {}
+    use("")
+
+
+def use(cfg):
+    """switch to the registry configured with unit system cfg (made once per worker)"""
+    if cfg not in _U["regs"]:
+        reg, kw = _U["build"](cfg)
+        _U["regs"][cfg] = {"reg": reg, "regkw": kw, "ucache": {}, "owncache": {}}
+    _U.update(_U["regs"][cfg])
 
 
 def spec_str(case, which):
@@ -77,7 +88,7 @@ def ascii_unit(u):
     own = r is reg or getattr(r, "lut", None) is reg.lut
     if not own:
         key = (str(u.expr), float(u.base_value), float(u.base_offset))
-        c = _U.setdefault("owncache", {})
+        c = _U["owncache"]
         if key not in c:
             try:
                 v = _U["Unit"](u.expr, registry=reg)
@@ -231,7 +242,29 @@ def base_routes(case, sa):
         r.update(fam=fam, rt=rt, g=g)
         R.append(r)
 
+    usobj = _U["unyt"].unit_systems.unit_system_registry[sys_]
+    # the default-argument forms ("the configured base units") and the request family / group of numbers the
+    # specification filed them under for this case (the named request, or one of their own)
+    dfam, dbfam, dg = case["dfam"], case["dbfam"], case["dg"]
     add("base", "in_base", "B", lambda: mk().in_base(sys_))
+    add("base", "in_base_obj", "B", lambda: mk().in_base(usobj))  # the system named by its UnitSystem object
+    add("base", "convert_base_obj", "B", lambda: _cb(mk(), "convert_to_base", usobj))
+    add("base", "to_equiv_obj", "B", lambda: mk().to(ua_.get_base_equivalent(usobj)))
+    add(dfam, "in_base_default", dg, lambda: mk().in_base())
+    add(dfam, "convert_base_default", dg, lambda: _cb(mk(), "convert_to_base"))
+    add(dfam, "to_equiv_default", dg, lambda: mk().to(ua_.get_base_equivalent()))
+    add(dfam, "convert_equiv_default", dg, lambda: inplace(mk(), ua_.get_base_equivalent()))
+    add(dfam, "hand_default", dg, lambda: hand(mk(), ua_.get_base_equivalent()))
+    add(dfam, "in_base_cfgobj", dg, lambda: mk().in_base(_U["reg"].unit_system))  # the configured system, handed over
+    add(dfam, "convert_base_cfgobj", dg, lambda: _cb(mk(), "convert_to_base", _U["reg"].unit_system))
+    xd = mk()
+    add(dfam, "copy_convert_base_default", dg, lambda: _cb(xd.to(ua_), "convert_to_base"))
+    add("src", "copy_convert_base_default", "A", lambda: xd)
+    add(dfam, "src_in_base_default", dg, lambda: xd.in_base())
+    add("src", "in_base_default", "A", lambda: xd)
+    add(dbfam, "to_default", "A", lambda: mk().in_base().to(ua_))
+    add(dbfam, "convert_default", "A", lambda: inplace(_cb(mk(), "convert_to_base"), ua_))
+    add(dbfam, "to_name_default", "A", lambda: mk().in_base().to(sa))
     add("base", "convert_base", "B", lambda: _cb(mk(), "convert_to_base", sys_))
     add("base", "to_equiv", "B", lambda: mk().to(ua_.get_base_equivalent(sys_)))
     add("base", "convert_equiv", "B", lambda: inplace(mk(), ua_.get_base_equivalent(sys_)))
@@ -266,12 +299,13 @@ def base_routes(case, sa):
     add("bback", "to_name", "A", lambda: mk().in_base(sys_).to(sa))
     add("bback", "convert_name", "A", lambda: inplace(_cb(mk(), "convert_to_base", sys_), sa))
     add("bback", "convert", "A", lambda: inplace(_cb(mk(), "convert_to_base", sys_), ua_))
-    ub_ = None
+    ub_ = uc_ = None
     for r in R:
-        if r["fam"] == "base" and r["unit"] is not None:
+        if r["g"] == "B" and ub_ is None and r["unit"] is not None:
             ub_ = r["unit"]
-            break
-    return R, {"A": ua_, "B": ub_, "C": None}
+        if r["g"] == "C" and uc_ is None and r["unit"] is not None:
+            uc_ = r["unit"]
+    return R, {"A": ua_, "B": ub_, "C": uc_}
 
 
 def classify(case, R, units):
@@ -347,6 +381,7 @@ def classify(case, R, units):
 
 
 def observe(case):
+    use(case.get("cfg", ""))
     sa = spec_str(case, "A")
     if case["kind"] == "conv":
         sb, sc = spec_str(case, "B"), spec_str(case, "C")
@@ -355,7 +390,7 @@ def observe(case):
         sb = sc = sa
         R, units = base_routes(case, sa)
     res, tol = classify(case, R, units)
-    obs = {k: case[k] for k in ("kind", "a", "b", "c", "k", "dt", "sh", "xs", "exact", "sys", "sysi")}
+    obs = {k: case[k] for k in ("kind", "a", "b", "c", "k", "dt", "sh", "xs", "exact", "sys", "sysi", "cfg", "cfgi", "dfam")}
     obs["res"] = res
     obs["ustr"] = {g: (ascii_unit(u) if u is not None else "") for g, u in units.items()}
     obs["names"] = {"A": sa.encode("ascii", "backslashreplace").decode(), "B": sb.encode("ascii", "backslashreplace").decode(), "C": sc.encode("ascii", "backslashreplace").decode()}
